@@ -337,6 +337,8 @@ def ret_expr(h, hid):
         return "vec![(hash64(&%s) %% 1000) as u32, %d]" % (key, len(h.args))
     if h.ret == "Binary":
         return "Binary::from(%s.into_bytes())" % key
+    if h.ret == "Unenc":
+        return "Unenc { label: %s, pairs: (0..n).map(|i| ((i, i), i as u64)).collect() }" % key
     if h.ret in ("T", "Self::T"):
         return "item.clone()"
     raise Exception("ret type " + h.ret)
@@ -1467,6 +1469,7 @@ def iface_lib_f1():
         [
             Handler("query", "eps_one", ret="bool"),
             Handler("query", "eps_two", [Arg("list", "Vec<u32>")], ret="Vec<u32>", failarg=True),
+            Handler("query", "eps_unenc", [Arg("n", "u8")], ret="Unenc"),
         ],
     )
     zeta = Iface(
@@ -1517,6 +1520,7 @@ def family_f1(rng):
                 Handler("exec", "z_up", [Arg("n", "u8")]),
                 Handler("query", "q_of_x", [Arg("x", "String")], ret="String"),
                 Handler("query", "raw_bytes", [Arg("x", "u32")], ret="Binary", failarg=True),
+                Handler("query", "unenc", [Arg("n", "u8")], ret="Unenc"),
                 Handler("query", "balance_of", [Arg("who", "Addr")], ret="u64", failarg=True),
                 Handler("query", "probe", [Arg("x", "u32")], ret="u64", failarg=True),
                 Handler("sudo", "nudge", [Arg("n", "u64")]),
